@@ -127,6 +127,13 @@ func (tr *gtTr) rootOf(lhs ast.Expr, env *venv) (stKey, bool, bool) {
 			e = unparen(x.X)
 			continue
 		case *ast.SelectorExpr:
+			if c, isCall := unparen(x.X).(*ast.CallExpr); isCall {
+				if pl, ok := tr.placeCall(c, env); ok {
+					elem = true // x.top().f with top a place helper: a field of the element x[...]
+					e = pl
+					continue
+				}
+			}
 			if _, isId := unparen(x.X).(*ast.Ident); !isId {
 				elem = true // a field of an element: s[i].f
 				e = unparen(x.X)
